@@ -256,32 +256,32 @@ func (w *World) doReader() {
 	var l *ipfslog.IPFSLog
 	var err error
 	w.driven(func(ctx context.Context) {
-		l, err = ipfslog.NewFromJSON(ctx, w.St, Writers()[4].ID, js, o, &entry.FetchOptions{})
+		l, err = ipfslog.NewFromJSON(ctx, w.St, Writers()[4].ID, js, o, w.fetchOpts(0, nil, 0))
 	})
 	r.Logf("reader of n%d key=%s err=%v", n.Idx, [...]string{"same", "different", "none"}[which], err != nil)
 	if which == 0 {
 		if err != nil {
-			r.Violate("C18:same-key-load", "reader with the same key cannot load the log: %v", err)
+			r.Violate(w.P.Prop+":same-key-load", "reader with the same key cannot load the log: %v", err)
 		}
 		if got := hashSet(l.GetEntries()); !setEq(got, n.Set) {
-			r.Violate("C18:same-key-load", "reader with the same key loaded %d of %d entries", len(got), len(n.Set))
+			r.Violate(w.P.Prop+":same-key-load", "reader with the same key loaded %d of %d entries", len(got), len(n.Set))
 		}
 		o2 := &ipfslog.LogOptions{ID: w.LogID, SortFn: w.sortFn(), IO: io}
 		fresh, _ := ipfslog.NewLog(w.St, Writers()[4].ID, o2)
 		if _, err := fresh.Join(l, -1); err != nil {
-			r.Violate("C18:same-key-merge", "a keyed replica refused the entries loaded with the same key: %v", err)
+			r.Violate(w.P.Prop+":same-key-merge", "a keyed replica refused the entries loaded with the same key: %v", err)
 		}
 		if fresh.Len() != len(n.Set) {
-			r.Violate("C18:same-key-merge", "a keyed replica merged %d of %d entries", fresh.Len(), len(n.Set))
+			r.Violate(w.P.Prop+":same-key-merge", "a keyed replica merged %d of %d entries", fresh.Len(), len(n.Set))
 		}
 		return
 	}
 	if err != nil || l == nil {
 		return
 	}
-	for _, e := range l.GetEntries().Slice() {
+	for _, e := range liveSlice(l.GetEntries()) {
 		if len(e.GetNext()) != 0 || len(e.GetRefs()) != 0 {
-			r.Violate("C18:foreign-reader-links", "reader with %s key obtained links from entry %s", [...]string{"same", "a different", "no"}[which], w.M.Name(e.GetHash().String()))
+			r.Violate(w.P.Prop+":foreign-reader-links", "reader with %s key obtained links from entry %s", [...]string{"same", "a different", "no"}[which], w.M.Name(e.GetHash().String()))
 		}
 	}
 	heads := map[string]bool{}
@@ -290,7 +290,7 @@ func (w *World) doReader() {
 	}
 	for h := range hashSet(l.GetEntries()) {
 		if !heads[h] {
-			r.Violate("C18:foreign-reader-traversal", "reader without the key reached %s beyond the published heads", w.M.Name(h))
+			r.Violate(w.P.Prop+":foreign-reader-traversal", "reader without the key reached %s beyond the published heads", w.M.Name(h))
 		}
 	}
 }
